@@ -45,6 +45,8 @@ class _Skip(Exception):
 
 
 def _numeric_cols(ddf):
+    if getattr(ddf, "ndim", 2) == 1:
+        return []  # a Series (after the 'series' step)
     return [c for c in ddf.columns if str(ddf.dtypes[c]) in ("int64", "float64") and c != "s"]
 
 
@@ -219,7 +221,8 @@ def check(spec):
         ddf = C.build_ddf(spec, pdf)
         # from_pandas(sort=True) reorders rows of an unsorted frame: then 's' is no longer globally sorted
         s_valid = not (unsorted_src and p.get("sort", True) and p["how"] != "cuts")
-        setcols = [c["name"] for c in spec["columns"] if c["kind"] in ("int", "key", "str", "datetime") or (c["kind"] == "float" and not c.get("nan"))]
+        # assumption 1: only columns WITHOUT missing values are used as a new index (str/float columns may hold NaN)
+        setcols = [c["name"] for c in spec["columns"] if c["kind"] in ("int", "key", "str", "datetime", "float") and not c.get("nan")]
         st_ = {
             "index_vals": sorted(set(_plain_list(pdf.index))),
             "original_index": True,
